@@ -447,6 +447,14 @@ func ruleR26(c *Ctx) {
 		if strings.Contains(strings.ToLower(u.Name), "collat") {
 			props = append(props, "C08")
 		}
+		// a lazily evaluated sequence that still reads the caller's buffer yields the keys for
+		// whatever the buffer holds when it is ranged over, not for the argument of the call
+		switch {
+		case strings.HasSuffix(u.Name, ".Prefix"):
+			props = append(props, "C04")
+		case strings.HasSuffix(u.Name, ".Range") || u.Name == "rangeScan":
+			props = append(props, "C03")
+		}
 		fl.walk(func(n ast.Node, fs *FactSet, stmt ast.Node, b *cfg.Block) {
 			lit, ok := n.(*ast.FuncLit)
 			if !ok {
